@@ -169,4 +169,18 @@ example : RT.NumAttr.uid.Big (b!"4294967296)\r\n") :=
 example : parseResponse (b!"* 1 FETCH (UID 4294967296)\r\n") = .err := by rfl
 example : parseResponse (b!"* 1 FETCH (MODSEQ (18446744073709551616))\r\n") = .err := by rfl
 
+/-- the same at any later position: after any number of well-formed attributes (every attribute form
+    of the grammar, `RT.EncAttr`), `SP UID <too big>` etc. makes the whole response a parse error -
+    the value parsed so far is not delivered with the offending attribute dropped or wrapped -/
+theorem fetch_later_attribute_overflow (n : Nat) (hn : n < 2 ^ 32) (z : Nat) (mf : List Bool)
+    (first : Bytes × AttributeValue) (others : List (Bytes × AttributeValue))
+    (hall : ∀ x ∈ first :: others, RT.EncAttr x.2 x.1)
+    (a : RT.NumAttr) (m : List Bool) (i : Bytes) (h : a.Big i) :
+    parseResponse (b!"* " ++ ((List.replicate z 48 ++ decDigits n) ++ (RT.spell (b!" FETCH ") mf ++
+      ([40] ++ ((first.1 ++ (others.map fun x => [32] ++ x.1).flatten) ++ 32 :: (RT.spell a.kw m ++ i))))))
+      = .err :=
+  RT.parseResponse_fetch_err_later n hn _ (.mk z) mf first others hall _ (RT.msgAtt_err_big a m i h)
+
+example : parseResponse (b!"* 1 FETCH (FLAGS () UID 4294967296)\r\n") = .err := by rfl
+
 end C13
